@@ -1,5 +1,5 @@
 -------------------------- MODULE Gen_JsonGrammar --------------------------
-(* spec -> impl for C08: every byte string of length <= MaxLen over Alphabet *)
+(* spec -> impl for C08: every byte string of length <= Lk over alphabet Ak   *)
 (* with what JsonGrammar.tla predicts:                                       *)
 (*   b    the bytes                                                          *)
 (*   acc  1 iff the bytes are one RFC 8259 JSON text nested <= Cap           *)
@@ -9,14 +9,18 @@
 (* The configuration is carried along incrementally (one Step per Next).     *)
 EXTENDS JsonGrammar, TLC, Json
 
-CONSTANTS Alphabet, MaxLen
+CONSTANTS A1, L1, A2, L2, A3, L3     \* three alphabets with their length bounds (one TLC run)
 
-VARIABLES s, c
-vars == <<s, c>>
+Alphabet(k) == IF k = 1 THEN A1 ELSE IF k = 2 THEN A2 ELSE A3
+MaxLen(k) == IF k = 1 THEN L1 ELSE IF k = 2 THEN L2 ELSE L3
 
-Init == s = <<>> /\ c = CfgInit
-Next == /\ Len(s) < MaxLen
-        /\ \E b \in Alphabet : s' = Append(s, b) /\ c' = StepRfc(c, b)
+VARIABLES s, c, al
+vars == <<s, c, al>>
+
+Init == s = <<>> /\ c = CfgInit /\ al \in {1, 2, 3}
+Next == /\ Len(s) < MaxLen(al)
+        /\ \E b \in Alphabet(al) : s' = Append(s, b) /\ c' = StepRfc(c, b)
+        /\ al' = al
 Spec == Init /\ [][Next]_vars
 
 Emit ==
